@@ -15,6 +15,42 @@ EXEMPT = {"swcgeom.transforms.base.Identity": "documents `return input as-is`; n
                                                "property's operations"}
 
 
+def _rowtext(ctx, col):
+    from .. import relang
+    from .c01 import reader_patterns, r_capture
+    p, _re_assign, pats = reader_patterns(ctx)
+    if not pats:
+        col.unresolved("R-ROWTEXT", p.qualname, p.loc(), "row regex", "cannot fold the row pattern", stmt="hash-not-row")
+        return
+    def first_use(name):
+        ls = [n.lineno for n in own_nodes(p) if isinstance(n, ast.Call) and isinstance(n.func, ast.Attribute) and isinstance(n.func.value, ast.Name) and n.func.value.id == name]
+        return min(ls) if ls else None
+    row_at, com_at = first_use(_re_assign.targets[0].id if isinstance(_re_assign.targets[0], ast.Name) else "re_swc"), first_use("RE_COMMENT")
+    if row_at is None or (com_at is not None and com_at < row_at):
+        col.unresolved("R-ROWTEXT", p.qualname, p.loc(), "a comment line is never read as a node", "the comment pattern is tried before the row pattern (or the row match is not a method call on the compiled "
+                       "pattern): whether a '#' line can reach the row pattern is not decided here", stmt="hash-not-row")
+        r_capture(ctx, col, "R-ROWTEXT")
+        return
+    for tag, pat in sorted(pats.items()):
+        try:
+            N, s0, _fin = relang.compile_nfa(pat, search=True)
+            S = relang._closure(N, {s0})
+            hit = None
+            for lead in ("", " ", "\t", "\ufeff"):
+                T = S
+                for ch in lead:
+                    T = relang._step(N, T, ch)
+                if T and relang._step(N, T, "#"):
+                    hit = lead
+                    break
+            col.check(hit is None, "R-ROWTEXT", p.qualname, p.loc(), f"a comment line is never read as a node ({tag})", "no state of the row regex survives a leading '#'",
+                      f"the row regex can consume {(hit or '') + '#'!r} at the start of a line: a commented-out sample (`# 7 3 4.0 -3.0 0.0 0.5 6`, as written back from a tree's comments) is "
+                      f"read as a node, the table gets a row whose id is not its position", stmt=f"hash-not-row:{tag}", definite=True)
+        except relang.UnsupportedRegex as ex:
+            col.unresolved("R-ROWTEXT", p.qualname, p.loc(), f"comment vs row regex ({tag})", str(ex), stmt=f"hash-not-row:{tag}")
+    r_capture(ctx, col, "R-ROWTEXT")
+
+
 # ------------------------------------------------------------------ discovery
 def tree_ops(ctx):
     """[(label, def, self_class|None)] of tree -> tree operations, discovered."""
@@ -100,6 +136,9 @@ def run(ctx, col, tier):
     col.rule("R-OWNLIST", "every tree object has its own comment list: the constructor binds a fresh list to self.comments on every path (the class-level default list is shared by "
              "all objects that do not); edits of one side's comments cannot leak into the other", floor=1)
     _small_own.own_container_on_every_path(ctx, col, "R-OWNLIST", "swcgeom.core.swc.DictSWC", "comments", "every DictSWC / Tree gets its own comment list")
+    col.rule("R-ROWTEXT", "reading a file yields the nodes its rows describe and nothing else: a line starting with '#' never matches the row regex (NFA of the folded pattern), "
+             "and the row regex matches nothing but white space outside its capture groups -- otherwise commented-out or junk text becomes an extra node whose id is not its position", floor=2)
+    col.guard(_rowtext, ctx, col)
     from ..rules import endpoints as _endpoints
     _endpoints.run(ctx, col, ('swcgeom.core.tree', 'swcgeom.core.path', 'swcgeom.core.branch', 'swcgeom.core.node', 'swcgeom.core.tree_utils', 'swcgeom.core.tree_utils_impl', 'swcgeom.core.swc_utils.base', 'swcgeom.core.swc_utils.subtree', 'swcgeom.core.swc_utils.normalizer', 'swcgeom.core.swc_utils.io'))
     from ..rules import stateless as _stateless_memo
@@ -110,6 +149,8 @@ def run(ctx, col, tier):
     _stale.run(ctx, col, ('swcgeom.core.tree_utils', 'swcgeom.core.tree_utils_impl', 'swcgeom.transforms.tree', 'swcgeom.transforms.path', 'swcgeom.transforms.branch_tree'))
     from ..rules import smalllints as _small
     _small.run_rounds(ctx, col, ('swcgeom.core.swc_utils.subtree', 'swcgeom.core.swc_utils.base', 'swcgeom.core.swc_utils.normalizer', 'swcgeom.core.tree_utils', 'swcgeom.core.tree_utils_impl'))
+    from ..rules import loopvar as _loopvar
+    _loopvar.run(ctx, col, ('swcgeom.core.tree', 'swcgeom.core.tree_utils', 'swcgeom.core.tree_utils_impl', 'swcgeom.core.swc_utils.base', 'swcgeom.core.swc_utils.subtree', 'swcgeom.core.swc_utils.normalizer', 'swcgeom.core.swc_utils.assembler', 'swcgeom.core.swc_utils.io', 'swcgeom.transforms.tree', 'swcgeom.transforms.branch_tree'))
     from ..rules import rowslice as _rowslice
     _rowslice.run(ctx, col, ('swcgeom.core.tree', 'swcgeom.core.tree_utils', 'swcgeom.core.tree_utils_impl', 'swcgeom.core.swc_utils.base', 'swcgeom.core.swc_utils.subtree', 'swcgeom.core.swc_utils.normalizer', 'swcgeom.transforms.tree'))
     from ..rules import rootpos as _rootpos
